@@ -47,4 +47,10 @@ TEXT = {
     level_text="Generated histories x generated failure points; each entry handed out by the mock is a unique handle whose releases and later uses are counted, so leaks, double releases and use-after-release are observed directly.",
     level_note="Trusted: mockfs instrumentation; hook VerifFidTable. Concurrent release paths are C14's business.",
  ),
+ "C20": dict(
+    technique="model-based property testing (rapid histories) of CFileSys over a recording Session spy over the real SFileSys; server fid table read through the verif hook",
+    design_ref="DESIGN.md section 4, C20",
+    level_text="Stateful generated-history search; the spy observes every session call the client layer makes, the hook observes what the server actually bound, so leaks and mis-addressed calls are seen directly.",
+    level_note="Trusted: spy, mockfs, VerifFidTable. The client layer is exercised in-process (no wire); the wire path is C09/C17.",
+ ),
 }
